@@ -253,6 +253,10 @@ func (i *interpreter) strEq(x, y value) value {
 		return false
 	}
 	xs, ys := strVals(x), strVals(y)
+	if len(xs) >= 4 {
+		// one wide equality (adjacent extracts of one term are merged back)
+		return i.normBool(i.ts.Eq(i.bytesTerm(xs), i.bytesTerm(ys)))
+	}
 	conj := make([]*Term, 0, len(xs))
 	for k := range xs {
 		e := i.ts.Eq(i.toTerm(xs[k]), i.toTerm(ys[k]))
